@@ -13,7 +13,7 @@ from ..ref import Graph
 LEVEL = "exploration"
 TECHNIQUE = 'runtime monitoring: identity (is) comparison of collection[i] with the harness-built concatenation for every index, exhaustive over length vectors in {0,1,2}^k (k<=5) plus random and long members, shared names, repeated random-order access'
 RULE = ("MazeDatasetCollection built from member datasets with prescribed lengths: exhaustively every length vector in {0,1,2}^k for "
-        "k<=5 (363 vectors) plus random vectors (k<=8, lengths<=6, zeros at start/middle/end and repeated) plus members of 126..300 mazes (cumulative lengths past 127/255; thorough: 33000), member names unique or shared, member grid sizes equal "
+        "k<=5 (363 vectors) plus random vectors (k<=8, lengths<=6, zeros at start/middle/end and repeated) plus members of 126..300 mazes (cumulative lengths past 127/255; thorough: 33000), collections of 128..300 (thorough 1000) members, member names unique or shared, member grid sizes equal "
         "and different; for every index 0<=i<len (and again in random order) the item must be *the very object* (is) at position i of the concatenation; len, "
         ".mazes, .dataset_lengths and .cfg.n_mazes must agree. "
         "non-trivial & distinct = distinct length vectors with >= 2 non-empty members and >= 1 empty member")
@@ -22,7 +22,7 @@ EXHAUSTIVE = {"quick": False, "thorough": False}
 NSHARDS = {"quick": 16, "thorough": 16}
 THRESHOLDS = {"quick": {"c16:collections": 800, "c16:index-checks": 3000, "c16:vec-exhaustive": 363, "c16:zero-first": 50,
                         "c16:zero-middle": 50, "c16:zero-last": 50, "c16:repeated-zeros": 50, "c16:mixed-grid": 100,
-                        "c16:np-int-index": 300, "c16:long-members": 30, "c16:shared-member-names": 60, "c16:index-checks-second-pass": 2000}}
+                        "c16:np-int-index": 300, "c16:long-members": 30, "c16:many-members": 6, "c16:shared-member-names": 60, "c16:index-checks-second-pass": 2000}}
 THRESHOLDS["thorough"] = dict(THRESHOLDS["quick"])
 ANCHORS = ["maze_dataset.dataset.collected_dataset:MazeDatasetCollection.__getitem__",
            "maze_dataset.dataset.collected_dataset:MazeDatasetCollection.__len__",
@@ -139,6 +139,15 @@ def run(ctx):
             vec[int(rng.integers(klen))] = 33000
         check_vector(ctx, vec, [2] * klen, rng, "big")
         ctx.tally("c16:long-members")
+    # many members (member indices past 127 / 255)
+    for j, kmem in enumerate([129, 130, 200, 260, 300, 128] if ctx.quick else [129, 130, 200, 260, 300, 128, 257, 500, 1000]):
+        if not ctx.mine(j):
+            continue
+        rng = ctx.sub_rng("many", j)
+        vec = [int(rng.integers(0, 3)) for _ in range(kmem)]
+        vec[-1] = max(vec[-1], 1)
+        check_vector(ctx, vec, [2] * kmem if j % 2 else [int(rng.integers(2, 4)) for _ in range(kmem)], rng, "many")
+        ctx.tally("c16:many-members")
     n = 600 if ctx.quick else 20000
     for j in range(n):
         if not ctx.mine(j):
